@@ -239,6 +239,9 @@ func extRandInt(fr *frame, args []value) value {
 
 func extRandIntn(fr *frame, args []value) value {
 	i := fr.i
+	if i.P.params["rand_concrete"] == 1 {
+		return 0 // boundary-size runs: the shuffle is not the subject (stated in the evidence)
+	}
 	n, _ := i.term(args[0])
 	if i.branchTerm(i.tt.Bin(opSle, n, i.tt.Const(64, 0))) {
 		panic(targetPanic{iface{i.P.runtimeErrorString, "invalid argument to Intn"}})
